@@ -63,7 +63,7 @@ type Line struct {
 
 // findingLongLines: write-back splits lines longer than 4096 bytes (candidate
 // finding of this check; long lines are generated unless it is listed as open).
-const findingLongLines = "F181"
+const findingLongLines = "F45"
 
 type File struct {
 	Lines          []Line `json:"lines"`
